@@ -308,6 +308,11 @@ pub fn check(case: &Case, ctx: &mut CaseCtx) {
 /// the service had been announced, the new data is probed three times 250 ms apart and then announced
 /// twice, within the same bound as a first registration.
 fn judge_update(d: &SimDaemon, old: &Planned, new: &Planned, upto: usize, ctx: &mut CaseCtx) {
+    // (a list that already has the added key keeps its first value: nothing changed, nothing to probe)
+    if old.txt_rdata == new.txt_rdata && old.port == new.port {
+        ctx.class("update-without-change");
+        return;
+    }
     let detail = |what: String| format!("{what}\n--- history since the second registration ---\n{}", render_log(&d.log[upto.saturating_sub(1)..], true, 60));
     if let Some(m) = &d.dead {
         ctx.violation(format!("C07/daemon-died/{}", m.split(": ").next().unwrap_or("")), detail(format!("daemon died: {m}")));
